@@ -1325,6 +1325,8 @@ class ThreadsafeForwardingResult(TestResult):
         self._add_result_with_semaphore(
             self.result.addError, test, err, details=details
         )
+        if self.failfast:
+            self.stop()
 
     def addExpectedFailure(self, test, err=None, details=None):
         self._add_result_with_semaphore(
@@ -1335,6 +1337,8 @@ class ThreadsafeForwardingResult(TestResult):
         self._add_result_with_semaphore(
             self.result.addFailure, test, err, details=details
         )
+        if self.failfast:
+            self.stop()
 
     def addSkip(self, test, reason=None, details=None):
         self._add_result_with_semaphore(
@@ -1348,6 +1352,8 @@ class ThreadsafeForwardingResult(TestResult):
         self._add_result_with_semaphore(
             self.result.addUnexpectedSuccess, test, details=details
         )
+        if self.failfast:
+            self.stop()
 
     def progress(self, offset, whence):
         pass
